@@ -130,11 +130,11 @@ type exitRec struct {
 }
 
 type goRec struct {
-	Fn     *Fn // the literal
-	Parent *Fn
-	Pos    token.Pos
-	Joined bool
-	InLoop bool
+	Fn        *Fn // the literal
+	Parent    *Fn
+	Pos       token.Pos
+	Joined    bool
+	InLoop    bool
 	Inherited []string
 }
 
@@ -192,7 +192,7 @@ func (le *LockEngine) lockOf(fn *Fn, e ast.Expr) (class, base string, ok bool) {
 	return "", "", false
 }
 
-func heldFact(base, class, mode string) string { return "H|" + base + "|" + class + "|" + mode }
+func heldFact(base, class, mode string) string  { return "H|" + base + "|" + class + "|" + mode }
 func deferFact(base, class, mode string) string { return "D|" + base + "|" + class + "|" + mode }
 
 func (le *LockEngine) hasLock(f Facts, base, class, mode string) bool {
@@ -559,7 +559,6 @@ func (le *LockEngine) node(fn *Fn, n ast.Node, f Facts, visit bool) {
 		return true
 	})
 }
-
 
 func (le *LockEngine) markStore(fn *Fn, lhs ast.Expr, handled map[ast.Node]bool, f Facts, rec bool) {
 	// find the guarded selector the store goes through: x.F = …, x.F[k] = …, *x.F = …
